@@ -42,6 +42,7 @@ def check(ck):
     c06.r06_3(ck)
     r08_7(ck)
     r08_8(ck)
+    c06.r06_7(ck, rule='R08.9')
 
 
 def registrations(ck, registry):
